@@ -28,7 +28,8 @@ var defects = []string{"import-cycle", "import-self", "include-cycle", "typedef-
 	"dangling-import", "dangling-include", "dangling-type", "dangling-uses", "dangling-base", "dangling-if-feature", "dangling-prefix", "belongs-to-missing",
 	"typedef-cycle-cross-scope", "grouping-cycle-long", "grouping-cycle-via-uses-augment", "grouping-cycle-via-uses-augment-nested",
 	"feature-cycle-second", "dangling-if-feature-second", "dangling-include-foreign", "dangling-include-foreign-nested",
-	"typedef-cycle-local-case", "typedef-cycle-local-augment", "typedef-cycle-local-uses-augment", "typedef-cycle-local-list"}
+	"typedef-cycle-local-case", "typedef-cycle-local-augment", "typedef-cycle-local-uses-augment", "typedef-cycle-local-list",
+	"dangling-uses-augment-absolute", "illegal-config-in-remote-grouping", "illegal-default-in-remote-grouping"}
 
 func str(s string) *sg.TypeSpec { return &sg.TypeSpec{Name: s} }
 
@@ -120,6 +121,15 @@ func inject(mods []*sg.Mod, d string, pick func(n int) int) {
 			holder.Kids = append([]*sg.Node{{Kind: "leaf", Name: "cyc-k", Type: &sg.TypeSpec{Name: "string"}}}, holder.Kids...)
 			host.Nodes[0].Kids = append(host.Nodes[0].Kids, &sg.Node{Kind: "container", Name: "cyc-outer", Kids: []*sg.Node{holder}})
 		}
+	case "dangling-uses-augment-absolute":
+		// the augment of a uses takes a descendant path: an absolute one (which parses, the argument syntax of augment
+		// covers both) names nothing there
+		host.Groupings = append(host.Groupings, &sg.Grouping{Name: "cyc-gh", Kids: []*sg.Node{{Kind: "container", Name: "cyc-x"}}})
+		tgt := "/cyc-x"
+		if ownPfx {
+			tgt = "/" + host.Prefix + ":cyc-x"
+		}
+		host.Nodes[0].Kids = append(host.Nodes[0].Kids, &sg.Node{Kind: "uses", Name: "cyc-gh", Augments: []*sg.Augment{{Target: tgt, Kids: []*sg.Node{{Kind: "leaf", Name: "cyc-leaf", Type: &sg.TypeSpec{Name: "string"}}}}}})
 	case "typedef-cycle-cross-scope":
 		// a typedef local to a container refers to a module-level typedef that refers back by union membership
 		m.Typedefs = append(m.Typedefs, &sg.Typedef{Name: "cyc-a", Type: &sg.TypeSpec{Name: "union", Members: []*sg.TypeSpec{str("int8"), str("cyc-b")}}},
@@ -191,6 +201,13 @@ func inject(mods []*sg.Mod, d string, pick func(n int) int) {
 		host.Nodes[0].Kids = append(host.Nodes[0].Kids, &sg.Node{Kind: "leaf", Name: "dang-leaf", Type: str("string"), IfFeatures: []string{"no-such-feature"}})
 	case "dangling-prefix":
 		host.Nodes[0].Kids = append(host.Nodes[0].Kids, &sg.Node{Kind: "leaf", Name: "dang-leaf", Type: str("nopfx:sometype")})
+	case "illegal-config-in-remote-grouping", "illegal-default-in-remote-grouping":
+		// a grouping that is fine where it is written, in a long module, and wrong where a short module uses it: the
+		// error belongs to a statement copied from one file into another
+		first := mods[0]
+		first.Groupings = append(first.Groupings, &sg.Grouping{Name: "cyc-gerr", Kids: []*sg.Node{
+			{Kind: "leaf", Name: "cyc-cfg", Type: &sg.TypeSpec{Name: "string"}, Config: "true"},
+			{Kind: "leaf", Name: "cyc-num", Type: &sg.TypeSpec{Name: "uint8"}}}})
 	case "belongs-to-missing", "dangling-include-foreign", "dangling-include-foreign-nested":
 		// handled by the caller (extra submodules)
 	}
@@ -213,6 +230,15 @@ func extraMods(c Case) []*sg.Mod {
 			&sg.Mod{Name: "sb", Prefix: "own", BelongsTo: owner, Includes: []string{"sa"}})
 	case "belongs-to-missing":
 		return append(append([]*sg.Mod(nil), mods...), &sg.Mod{Name: "orphan", Prefix: "own", BelongsTo: "no-such-module"})
+	case "illegal-config-in-remote-grouping", "illegal-default-in-remote-grouping":
+		short := &sg.Mod{Name: "zs", Prefix: "zs", Imports: []sg.Import{{Mod: mods[0].Name, Prefix: "z0"}}}
+		if c.Defect == "illegal-config-in-remote-grouping" {
+			short.Nodes = []*sg.Node{{Kind: "container", Name: "zs-top", Config: "false", Kids: []*sg.Node{{Kind: "uses", Name: "z0:cyc-gerr"}}}}
+		} else {
+			short.Nodes = []*sg.Node{{Kind: "container", Name: "zs-top", Kids: []*sg.Node{{Kind: "uses", Name: "z0:cyc-gerr",
+				Refines: []sg.Refine{{Target: "cyc-num", Stmts: []string{`default "300";`}}}}}}}
+		}
+		return append(append([]*sg.Mod(nil), mods...), short)
 	case "dangling-include-foreign", "dangling-include-foreign-nested":
 		// an include that names a submodule which exists in the set but belongs to another module: written in the module
 		// itself, or in one of its submodules
@@ -362,7 +388,7 @@ func checkCase(c Case) fw.Outcome {
 	}
 	// cycles are errors under every feature configuration; a dangling reference (an addition of this check, the property
 	// names cycles only) sits on a node that a disabled feature may remove before anything resolves it
-	mustReject := c.Defect != "" && (c.Feat == "" || strings.Contains(c.Defect, "cycle") || strings.Contains(c.Defect, "self"))
+	mustReject := c.Defect != "" && (c.Feat == "" || strings.Contains(c.Defect, "cycle") || strings.Contains(c.Defect, "self") || strings.HasPrefix(c.Defect, "illegal-"))
 	if mustReject && firstOK {
 		out.Violation = fmt.Sprintf("a module set with an injected %s compiles without error\nmodules:\n%s", c.Defect, out.Key)
 	}
